@@ -96,6 +96,21 @@ Proof. intros ->. unfold dtime, time_of; cbn; ring. Qed.
 Theorem steady_transfer H P C S :
   time_of (cmul H P) C S = cre H * time_of P C S + cim H * (- (cre P * S) - cim P * C).
 Proof. unfold time_of; cbn; ring. Qed.
+(* polar form: the algebraic content of the sqrt / atan2 contract used by ACChecker._is_sum_ac
+   (else branch) and by Expr.magnitude / Expr.phase: if r^2 = x^2 + y^2 and r <> 0 then
+   (cos theta, sin theta) := (x / r, y / r) is on the unit circle and r e^{j theta} = x + j y *)
+Theorem polar_sound (r x y : K) : r * r = x * x + y * y -> r <> 0 ->
+  cscale r (Cx (x / r) (y / r)) = Cx x y /\ (x / r) * (x / r) + (y / r) * (y / r) = 1.
+Proof. intros E Hr. split.
+  - apply cx_eq; cbn; field; exact Hr.
+  - transitivity ((x * x + y * y) / (r * r)); [field; exact Hr | rewrite <- E; field; exact Hr]. Qed.
+(* the polar pair is unique up to the sign of r: any (r, c, s) on the unit circle with r (c + j s) = x + j y has r^2 = x^2 + y^2 *)
+Theorem polar_modulus (r c s x y : K) : c * c + s * s = 1 -> cscale r (Cx c s) = Cx x y -> r * r = x * x + y * y.
+Proof. intros U E. injection E as <- <-. transitivity (r * r * (c * c + s * s)); [rewrite U; ring | ring]. Qed.
+(* magnitude of a quotient with real denominator: H = (Nr + j Ni) / D *)
+Theorem mag_sq_quotient (Nr Ni D m r : K) : D <> 0 -> r * r = Nr * Nr + Ni * Ni -> m = r / D ->
+  m * m = (Nr / D) * (Nr / D) + (Ni / D) * (Ni / D).
+Proof. intros HD E ->. transitivity ((r * r) / (D * D)); [field; exact HD | rewrite E; field; exact HD]. Qed.
 End PT.
 Arguments Cx {K}. Arguments cre {K}. Arguments cim {K}. Arguments cadd {K}. Arguments cmul {K}.
 Arguments cscale {K}. Arguments cj {K}. Arguments c1 {K}. Arguments copp {K}. Arguments qturn {K}.
@@ -105,3 +120,6 @@ Print Assumptions phasor_time_roundtrip.
 Print Assumptions roundtrip_unique.
 Print Assumptions deriv_is_jw.
 Print Assumptions steady_C.
+Print Assumptions polar_sound.
+Print Assumptions polar_modulus.
+Print Assumptions mag_sq_quotient.
